@@ -301,6 +301,46 @@ structure Restr where
   cando : Bytes
   bump : Bool
 
+/-- What happens to the segment under the pointer when `cando` is going to be written into the
+previous / a fresh mem segment instead: at EOF the file grows; a segment no longer than `cando` is
+dropped (and `cando` cut to its length); a longer one loses its first `len(cando)` bytes.
+Returns (cando, new size, the segments after the written one). -/
+def curFate (fn : FileNode) (cur : Nat) (curSeg : Option Seg) (cando : Bytes) : Bytes × Nat × List Seg :=
+  match curSeg with
+  | none => (cando, fn.size + cando.length, [])
+  | some s =>
+    if s.len ≤ cando.length then (cando.take s.len, fn.size, fn.segs.drop (cur + 1))
+    else (cando, fn.size, s.slice cando.length none :: fn.segs.drop (cur + 1))
+
+/-- "Split a non-writable block": the pointer is strictly inside stored segment `s`. Either the
+rest of `s` is overwritten completely (two pieces) or a piece of `s` survives on the right (three
+pieces). `none` = panic (slice bounds). -/
+def restrSplit (fn : FileNode) (cur so : Nat) (s : Seg) (cando : Bytes) : Option Restr :=
+  if so > s.len then none else
+  let mx := s.len - so
+  if mx ≤ cando.length then
+    let cando := cando.take mx
+    some ⟨fn.segs.take cur ++ [s.slice 0 (some so), memTruncate [] Flush.none cando.length]
+            ++ fn.segs.drop (cur + 1), fn.size, cur + 1, 0, cando, true⟩
+  else
+    some ⟨fn.segs.take cur ++ [s.slice 0 (some so), memTruncate [] Flush.none cando.length,
+            s.slice (so + cando.length) none] ++ fn.segs.drop (cur + 1),
+          fn.size, cur + 1, 0, cando, true⟩
+
+/-- The pointer is at the start of a non-writable segment or at EOF: grow the previous mem segment
+if it has room, otherwise insert a fresh mem segment; `curFate` says what happens to `cur`.
+(`if cur < len(fn.segments)` after the `append` is always true in the code, so `repacked` is bumped
+in every case, also when a new last segment is appended.) -/
+def restrShift (max : Nat) (fn : FileNode) (cur : Nat) (curSeg : Option Seg) (cando : Bytes) : Restr :=
+  match prevApp max fn.segs cur with
+  | some (buf, fl) =>
+    let f := curFate fn cur curSeg (cando.take (max - buf.length))
+    ⟨fn.segs.take (cur - 1) ++ [memTruncate buf fl (buf.length + f.1.length)] ++ f.2.2,
+     f.2.1, cur - 1, buf.length, f.1, true⟩
+  | none =>
+    let f := curFate fn cur curSeg cando
+    ⟨fn.segs.take cur ++ [memTruncate [] Flush.none f.1.length] ++ f.2.2, f.2.1, cur, 0, f.1, true⟩
+
 /-- The case analysis of one iteration of `filenode.Write` for remaining data `p`. The slice
 shuffles (`append`/`copy`) are written as `take ++ new ++ drop`. `none` = panic. -/
 def restructure (max : Nat) (fn : FileNode) (ptr : Ptr) (p : Bytes) : Option Restr :=
@@ -314,41 +354,10 @@ def restructure (max : Nat) (fn : FileNode) (ptr : Ptr) (p : Bytes) : Option Res
     some ⟨fn.segs, fn.size, cur, ptr.segOff, cando.take (buf.length - ptr.segOff), false⟩
   | curSeg =>
     if ptr.segOff > 0 then
-      -- split a non-writable segment
       match curSeg with
       | none => none
-      | some s =>
-        if ptr.segOff > s.len then none else
-        let mx := s.len - ptr.segOff
-        if mx ≤ cando.length then
-          let cando := cando.take mx
-          some ⟨fn.segs.take cur ++ [s.slice 0 (some ptr.segOff), memTruncate [] Flush.none cando.length]
-                  ++ fn.segs.drop (cur + 1), fn.size, cur + 1, 0, cando, true⟩
-        else
-          some ⟨fn.segs.take cur ++ [s.slice 0 (some ptr.segOff), memTruncate [] Flush.none cando.length,
-                  s.slice (ptr.segOff + cando.length) none] ++ fn.segs.drop (cur + 1),
-                fn.size, cur + 1, 0, cando, true⟩
-    else
-      let pa := prevApp max fn.segs cur
-      let cando := match pa with
-        | some (buf, _) => cando.take (max - buf.length)
-        | none => cando
-      -- what happens to cur: at EOF the file grows; a short cur is dropped; a long cur shrinks
-      let (cando, size, rest) : Bytes × Nat × List Seg :=
-        match curSeg with
-        | none => (cando, fn.size + cando.length, [])
-        | some s =>
-          if s.len ≤ cando.length then (cando.take s.len, fn.size, fn.segs.drop (cur + 1))
-          else (cando, fn.size, s.slice cando.length none :: fn.segs.drop (cur + 1))
-      match pa with
-      | some (buf, fl) =>
-        -- grow prev
-        some ⟨fn.segs.take (cur - 1) ++ [memTruncate buf fl (buf.length + cando.length)] ++ rest,
-              size, cur - 1, buf.length, cando, true⟩
-      | none =>
-        -- insert a fresh mem segment at cur. (`if cur < len(fn.segments)` after the append is
-        -- always true in the code, so repacked is always bumped.)
-        some ⟨fn.segs.take cur ++ [memTruncate [] Flush.none cando.length] ++ rest, size, cur, 0, cando, true⟩
+      | some s => restrSplit fn cur ptr.segOff s cando
+    else some (restrShift max fn cur curSeg cando)
 
 /-- The tail of an iteration: `WriteAt(cando)`, advance the pointer, prune when the segment offset
 reached `max`, normalise the pointer at a segment end. -/
@@ -360,12 +369,13 @@ def overwrite (hash : Bytes → Loc) (max : Nat) (w : WState) (r : Restr) : Step
     | some s' =>
       let segs := r.segs.set r.idx s'
       let off' := r.off + r.cando.length
-      let (segs, st) := if off' ≥ max then pruneSegs hash max segs 0 w.st else (segs, w.st)
-      let (idx', off'') := if s'.len = off' then (r.idx + 1, 0) else (r.idx, off')
+      let pr := if off' ≥ max then pruneSegs hash max segs 0 w.st else (segs, w.st)
+      let idx' := if s'.len = off' then r.idx + 1 else r.idx
+      let off'' := if s'.len = off' then 0 else off'
       let rep : Int := if r.bump then 1 else 0
-      some (⟨{ segs := segs, size := r.size, repacked := w.fn.repacked + rep },
+      some (⟨{ segs := pr.1, size := r.size, repacked := w.fn.repacked + rep },
              { off := w.ptr.off + r.cando.length, segIdx := idx', segOff := off'', repacked := w.ptr.repacked + rep },
-             st⟩, r.cando.length)
+             pr.2⟩, r.cando.length)
   | _ => none
 
 /-- One iteration of the loop in `filenode.Write` for remaining data `p` (non-empty). -/
